@@ -63,6 +63,11 @@ func symd(v ssa.Value, d int) string {
 	}
 	switch x := v.(type) {
 	case *ssa.Parameter:
+		if n := len(symEnv); n > 0 {
+			if t, ok := symEnv[n-1][x]; ok {
+				return t
+			}
+		}
 		return x.Name()
 	case *ssa.FreeVar:
 		return x.Name()
@@ -104,8 +109,21 @@ func symd(v ssa.Value, d int) string {
 		if b, ok := x.Call.Value.(*ssa.Builtin); ok && (b.Name() == "len" || b.Name() == "cap") && len(x.Call.Args) == 1 {
 			return b.Name() + "(" + symd(x.Call.Args[0], d+1) + ")"
 		}
-		if cal := staticCallee(&x.Call); cal != nil && identityFns[cal] && len(x.Call.Args) > 0 {
+		if cal := staticCallee(&x.Call); cal != nil && isIdentityFn(cal) && len(x.Call.Args) > 0 {
 			return symd(x.Call.Args[0], d+1)
+		}
+		if cal := origin(staticCallee(&x.Call)); cal != nil && len(symEnv) < 4 {
+			if rv, ok := pureGetter(cal); ok && len(x.Call.Args) == len(cal.Params) {
+				// a side-effect free accessor: render its result expression over the arguments
+				env := map[ssa.Value]string{}
+				for i, p := range cal.Params {
+					env[p] = symd(x.Call.Args[i], d+1)
+				}
+				symEnv = append(symEnv, env)
+				t := symd(rv, d+1)
+				symEnv = symEnv[:len(symEnv)-1]
+				return t
+			}
 		}
 		return opaque(x)
 	case *ssa.Slice:
@@ -935,4 +953,91 @@ func returnsFresh(fn *ssa.Function, depth int) bool {
 		}
 	})
 	return ok && n > 0
+}
+
+// symEnv: parameter substitutions in force while sym renders the body of an
+// inlined accessor.
+var symEnv []map[ssa.Value]string
+
+var pureGetterMemo = map[*ssa.Function]struct {
+	rv ssa.Value
+	ok bool
+}{}
+
+// pureGetter: fn is a single-block function made only of field addresses,
+// loads, and calls to identity functions / other accessors, returning one
+// value.  Panicking validators (identity functions) are allowed: sym abstracts
+// from them anyway.
+func pureGetter(fn *ssa.Function) (ssa.Value, bool) {
+	if m, ok := pureGetterMemo[fn]; ok {
+		return m.rv, m.ok
+	}
+	pureGetterMemo[fn] = struct {
+		rv ssa.Value
+		ok bool
+	}{nil, false}
+	if fn == nil || len(fn.Blocks) != 1 {
+		return nil, false
+	}
+	var rv ssa.Value
+	good := true
+	for _, in := range fn.Blocks[0].Instrs {
+		switch x := in.(type) {
+		case *ssa.FieldAddr, *ssa.Field, *ssa.DebugRef:
+		case *ssa.UnOp:
+			if x.Op != token.MUL {
+				good = false
+			}
+		case *ssa.Call:
+			cal := origin(staticCallee(&x.Call))
+			if cal == nil {
+				good = false
+				break
+			}
+			if isIdentityFn(cal) || isIdentityFn(staticCallee(&x.Call)) {
+				break
+			}
+			if _, ok := pureGetter(cal); !ok {
+				good = false
+			}
+		case *ssa.Return:
+			if len(x.Results) != 1 {
+				good = false
+			} else {
+				rv = x.Results[0]
+			}
+		default:
+			good = false
+		}
+	}
+	if !good || rv == nil {
+		return nil, false
+	}
+	if _, isConst := rv.(*ssa.Const); isConst {
+		return nil, false
+	}
+	pureGetterMemo[fn] = struct {
+		rv ssa.Value
+		ok bool
+	}{rv, true}
+	return rv, true
+}
+
+var identityMemo = map[*ssa.Function]bool{}
+
+// isIdentityFn: registered in identityFns, or a repository function every
+// return of which returns its first parameter.
+func isIdentityFn(fn *ssa.Function) bool {
+	if fn == nil {
+		return false
+	}
+	if identityFns[fn] {
+		return true
+	}
+	if v, ok := identityMemo[fn]; ok {
+		return v
+	}
+	v := fn.Blocks != nil && returnsParam0(fn)
+	identityMemo[fn] = v
+	return v
 }
